@@ -686,6 +686,10 @@ func wireIntegerSinks(c *core.Ctx, d *decoderSet, ruleAlloc, ruleLoop string, ne
 			nSinks++
 			key := fmt.Sprintf("%s/%s#%d", core.FuncKey(fn), what, *ord)
 			upper := core.Guarded(fn, in, core.AnyOf(core.UpperBound(same(ti.src), 0), boundedByExisting(same(ti.src))))
+			if !upper && isFieldOf(ti.src, sizeF) && isPrivateHelper(c, fn) {
+				// a private helper entered only after its callers compared the same header field
+				upper = guardedUp(c, fn, in, core.UpperBound(func(v ssa.Value) bool { return isFieldOf(core.StripConv(v), sizeF) }, 0))
+			}
 			if srcCall, _ := core.CallResult(ti.src); !upper && srcCall != nil && resultBounded(srcCall) {
 				upper = true // the helper that read the integer compared it with a limit before returning it
 			}
@@ -819,15 +823,9 @@ func wireIntegerSinks(c *core.Ctx, d *decoderSet, ruleAlloc, ruleLoop string, ne
 			}
 			nonEmpty := core.CutEstablishing(core.NonZero(isReadLen))
 			// body entry: the successor from which the header is reachable again
-			consumes := true
-			for si, s := range h.Succs {
-				_ = si
-				r := core.ReachFrom(core.Point{B: s, I: 0}, isC, nonEmpty)
-				if r.Has(h.Instrs[0]) {
-					// can we come back to the header without consuming?
-					consumes = false
-				}
-			}
+			// can the loop go round without consuming?  (a flag set in the body that
+			// makes the loop condition false ends the loop like a break)
+			consumes := !core.SearchCycleThrough(h, isC, nonEmpty)
 			c.Check(consumes, ruleLoop, key, ifi.Pos(), "every iteration consumes at least one input byte (iterations <= input length)",
 				"the loop runs as many times as an integer read from the input says ("+c.Pos(ti.src.Pos())+"), with no constant limit and without a guarantee that each iteration consumes input: a count of 0xFFFFFFFF over zero-width elements spins for minutes on a few bytes")
 		}
